@@ -288,10 +288,14 @@ class ModelWorld(engine.World):
           if v.constraint is not None)
     elif ref is not None:
       self.never_projected = set(ref.get("never_projected", []))
+    if ref is not None:
+      # Restored weights are as (un)finalized as they were when recorded.
+      self.dirty_since_finalize = bool(ref.get("dirty_since_finalize", True))
 
   def _ref_state(self):
     return {
         "kfl": [kr.state() for kr in self.kfl_ref],
+        "dirty_since_finalize": bool(self.dirty_since_finalize),
         "never_projected": sorted(self.never_projected),
     }
 
@@ -983,6 +987,8 @@ class ModelWorld(engine.World):
       if k < len(img["ref"]["kfl"]):
         kr.restore(img["ref"]["kfl"][k])
     self.never_projected = set(img["ref"].get("never_projected", []))
+    self.dirty_since_finalize = bool(img["ref"].get("dirty_since_finalize",
+                                                    True))
     self._pending_compare = (img, None)
     ctx.fire("reload_weights")
     ctx.token("reload:" + img["fmt"])
